@@ -5,7 +5,7 @@
    strings).  LevDP is the row-wise dynamic program used by the trace spec for
    longer strings; MC_EditDistance walks LevDP row by row and checks every cell
    against Lev on every string pair of a small universe. *)
-EXTENDS Util
+EXTENDS Util, TLC
 
 Min3(a, b, c) == Min2(a, Min2(b, c))
 Prefix(s, n) == SubSeq(s, 1, n)
@@ -25,13 +25,13 @@ FirstRow(s) == [i \in 1..(Len(s) + 1) |-> i - 1]
 RECURSIVE BuildLevRow(_, _, _, _, _)
 BuildLevRow(prev, s, c, i, acc) ==
     IF i > Len(s) THEN acc
-    ELSE BuildLevRow(prev, s, c, i + 1,
-            Append(acc, Min3(prev[i] + (IF s[i] = c THEN 0 ELSE 1),
-                             prev[i + 1] + 1,
-                             acc[i] + 1)))
+    ELSE BuildLevRow(prev, s, c, i + 1,       \* TLCEval: TLC evaluates lazily; without it a row is a chain of |s| suspended Appends
+            TLCEval(Append(acc, Min3(prev[i] + (IF s[i] = c THEN 0 ELSE 1),
+                                     prev[i + 1] + 1,
+                                     acc[i] + 1))))
 NextRow(prev, s, c) == BuildLevRow(prev, s, c, 1, << prev[1] + 1 >>)
 RECURSIVE LevRow(_, _, _)
-LevRow(s, t, j) == IF j = 0 THEN FirstRow(s) ELSE NextRow(LevRow(s, t, j - 1), s, t[j])
+LevRow(s, t, j) == IF j = 0 THEN FirstRow(s) ELSE NextRow(TLCEval(LevRow(s, t, j - 1)), s, t[j])
 LevDP(s, t) == LevRow(s, t, Len(t))[Len(s) + 1]
 
 (* contract of the banded variant: band -1 means unbanded *)
